@@ -155,7 +155,7 @@ prop(
     title="the synchronous pool is thread-safe",
     explanation="lock-discipline obligations on the sync tree (and the async twin): every mutation of the pool's request queue and connection list, every assignment pass, and the pool reset in close() happen while the pool's thread lock is held; waiting, sending and closing happen outside it; connection state transitions (HTTP/1.1 gate and _response_closed, connect/tunnel/SOCKS establishment state) are written under their own lock; assign_to_connection/wait_for_connection hand-off order; list.remove calls are proved not to raise ValueError given the lock discipline",
     trusted=[A_NET, A_IFACE, A_SYNC, "GIL: single bytecodes are atomic; preemption inside h11/h2/threading internals not modelled"],
-    not_decided=['an HTTP/2 request waiting for a stream slot is registered in _events only after the semaphore: _response_closed of another thread turns the connection IDLE under it and the pool may evict it - reproduced (design_probes/w4_preexisting/C08_preexisting_1.py); same root cause as KF-h2-exit-between-gate-and-stream-registration, not stated as an obligation of its own', "interleavings between lock regions are not enumerated: the obligations are the guarded_by discipline plus per-region contracts, not a schedule exploration", "HTTP/2 state machine shared by threads without a common lock: not modelled"],
+    not_decided=["interleavings between lock regions are not enumerated: the obligations are the guarded_by discipline plus per-region contracts, not a schedule exploration", "HTTP/2 state machine shared by threads without a common lock: not modelled"],
 )
 
 prop(
@@ -163,7 +163,7 @@ prop(
     title="HTTP/2 streams isolated, bounded, cannot wedge each other",
     explanation="events are queued only on the stream id they carry (dispatch loop walks h2's list completely, in order, unknown streams dropped) and are handed out FIFO per stream; a stream id is taken only after acquiring a slot, the stream starts with one slot until SETTINGS arrive, SETTINGS move permits by exactly the change of the limit (loop invariant), every registered stream releases its slot exactly once on every exit; no suspension between stream id allocation and HEADERS; wait-for obligations: no blocking call while holding the read lock, no network read while own events are queued; credit of dropped / abandoned DATA",
     trusted=[A_H2, A_NET, A_SHIELD, A_SYNC],
-    not_decided=['an HTTP/2 request waiting for a stream slot is invisible to _response_closed (IDLE while a request is admitted) - reproduced (design_probes/w4_preexisting/C12_preexisting_1.py), see C08', "'every other stream runs to completion' as liveness: decided only as absence of wait-for edges under the read lock and of credit leaks"],
+    not_decided=["'every other stream runs to completion' as liveness: decided only as absence of wait-for edges under the read lock and of credit leaks"],
     audits=[AUD_H2],
 )
 prop(
